@@ -443,13 +443,25 @@ Definition instant (cfg : config) (comb : network) (evs : list event) (d : data)
 Definition data_cleared (cfg : config) : data :=
   mk_data (map rstate_cleared (cfg_regs cfg)) (map (fun p => all_X (fst p)) (cfg_inputs cfg)).
 
-(* powerOn: assert every reset pin; release it at once when the hold time is zero *)
+(* powerOn: assert every reset pin; "immediately disable again" when the hold time is zero.
+   NOTE (faithful to ReferenceSimulator.cpp): that branch first flips rs.resetHigh and then passes
+   `!rs.resetHigh` -- i.e. the ASSERTED level once more -- to changeReset() and onReset().  It is only
+   reachable for reset pins without any clocked node (SchedRegs.zero_hold_no_register). *)
 Definition poweron_resets (cfg : config) (d : data) : data :=
   fold_left (fun d s =>
     let act := ck_active_high (get_clock (cfg_clocks cfg) s) in
     let d1 := reset_value_change cfg s act d in
-    if Qis_zero (reset_hold_time cfg s) then reset_value_change cfg s (negb act) d1 else d1)
+    if Qis_zero (reset_hold_time cfg s)
+    then (let flipped := negb act in reset_value_change cfg s (negb flipped) d1)
+    else d1)
     (reset_pins cfg) d.
+
+(* the onReset callbacks of powerOn, in order *)
+Definition poweron_reset_log (cfg : config) : list (nat * bool) :=
+  flat_map (fun s =>
+    let act := ck_active_high (get_clock (cfg_clocks cfg) s) in
+    (s, act) :: (if Qis_zero (reset_hold_time cfg s) then [(s, negb (negb act))] else []))
+    (reset_pins cfg).
 
 Definition power_on (cfg : config) (comb : network) : data :=
   let d0 := data_cleared cfg in
@@ -488,7 +500,7 @@ Fixpoint run (cfg : config) (comb : network) (n : nat) (st : sched * data) : lis
 
 Definition simulate (cfg : config) (comb : network) (n : nat) : list instant_log :=
   let d := power_on cfg comb in
-  mk_log 0%Q [] [] (map r_out (d_regs d)) :: run cfg comb n (sched_init cfg, d).
+  mk_log 0%Q [] (poweron_reset_log cfg) (map r_out (d_regs d)) :: run cfg comb n (sched_init cfg, d).
 
 (* the scheduler alone (no data): the instants of the first n advanceEvent() calls *)
 Fixpoint sched_run (n : nat) (s : sched) : list instant_events :=
